@@ -476,4 +476,75 @@ pub fn run(which: &str, tier: &str, seed: u64, out: &mut Out) {
         Vec<Shape>, Option<Shape>, BTreeMap<String, Person>, (Color, Shape), Vec<Point>, Option<Point>,
     );
     out.extra.insert("types_in_family".into(), json!(48));
+    if which == "C04" { run_foreign(out, &mut r, n); }
+}
+
+// Serialize / Deserialize implementations the model does not describe: std
+// types whose impls are written by hand in serde (several choose their shape by
+// asking the format whether it is human readable, which the two halves of a
+// format must answer alike). Oracle only: the value path and the text path.
+fn foreign_case<T>(out: &mut Out, x: T)
+where T: serde::Serialize + serde::de::DeserializeOwned + PartialEq + std::fmt::Debug {
+    let tyname = std::any::type_name::<T>().replace("core::", "").replace("alloc::", "").replace("std::", "");
+    out.count(&format!("foreign:{}", tyname));
+    let case = format!("foreign {} ; {:?}", tyname, x);
+    out.oracle_checks += 2;
+    let r = std::panic::catch_unwind(std::panic::AssertUnwindSafe(|| {
+        let v = serde_lexpr::to_value(&x).map_err(|e| format!("to_value: {}", e))?;
+        let back: T = serde_lexpr::from_value(&v).map_err(|e| format!("from_value rejects to_value(x) = {}: {}", v, e))?;
+        if back != x { return Err(format!("from_value(to_value(x)) = {:?}", back)); }
+        let t = serde_lexpr::to_string(&x).map_err(|e| format!("to_string: {}", e))?;
+        let back: T = serde_lexpr::from_str(&t).map_err(|e| format!("from_str rejects to_string(x) = {}: {}", t, e))?;
+        if back != x { return Err(format!("from_str(to_string(x)) = {:?} (text {})", back, t)); }
+        let back: T = serde_lexpr::from_slice(t.as_bytes()).map_err(|e| format!("from_slice rejects to_string(x) = {}: {}", t, e))?;
+        if back != x { return Err(format!("from_slice(to_string(x)) = {:?} (text {})", back, t)); }
+        Ok(())
+    }));
+    match r {
+        Ok(Ok(())) => {}
+        Ok(Err(e)) => out.fail("foreign-roundtrip", format!("round trip fails for {}: {}", tyname, e), case, json!({})),
+        Err(_) => out.fail("foreign-roundtrip", format!("round trip panics for {}", tyname), case, json!({})),
+    }
+}
+
+fn run_foreign(out: &mut Out, r: &mut Rng, n: usize) {
+    use std::net::{IpAddr, Ipv4Addr, Ipv6Addr, SocketAddr, SocketAddrV4, SocketAddrV6};
+    use std::num::{NonZeroI64, NonZeroU8, Wrapping};
+    use std::time::Duration;
+    for i in 0..n.min(200) {
+        let a = r.next();
+        let b = r.next();
+        let v4 = match i % 4 { 0 => Ipv4Addr::new(0, 0, 0, 0), 1 => Ipv4Addr::new(255, 255, 255, 255), _ => Ipv4Addr::from(a as u32) };
+        let v6 = match i % 5 { 0 => Ipv6Addr::UNSPECIFIED, 1 => Ipv6Addr::LOCALHOST, 2 => Ipv4Addr::from(a as u32).to_ipv6_mapped(), _ => Ipv6Addr::from(((a as u128) << 64) | b as u128) };
+        foreign_case(out, v4);
+        foreign_case(out, v6);
+        foreign_case(out, IpAddr::V4(v4));
+        foreign_case(out, IpAddr::V6(v6));
+        foreign_case(out, SocketAddrV4::new(v4, b as u16));
+        foreign_case(out, SocketAddrV6::new(v6, a as u16, 0, 0));
+        foreign_case(out, SocketAddr::new(if i % 2 == 0 { IpAddr::V4(v4) } else { IpAddr::V6(v6) }, (a >> 7) as u16));
+        foreign_case(out, vec![IpAddr::V4(v4), IpAddr::V6(v6)]);
+        foreign_case(out, Some((a as u8, v4)));
+        foreign_case(out, { let mut m = BTreeMap::new(); m.insert(format!("h{}", a % 7), IpAddr::V6(v6)); m.insert("gw".to_string(), IpAddr::V4(v4)); m });
+        foreign_case(out, Duration::new(a >> (b % 64), (b % 1_000_000_000) as u32));
+        foreign_case(out, (a as u32 % 100)..(b as u32));
+        foreign_case(out, (a as i8)..=(b as i8));
+        foreign_case(out, std::ops::Bound::Included(a as i16));
+        foreign_case(out, std::ops::Bound::<u8>::Unbounded);
+        foreign_case(out, NonZeroU8::new((a as u8) | 1).unwrap());
+        foreign_case(out, NonZeroI64::new((a as i64) | 1).unwrap());
+        foreign_case(out, Wrapping(a as i16));
+        foreign_case(out, std::cmp::Reverse(b as u32));
+        foreign_case(out, Box::new((a as i32, format!("b{}", b % 9))));
+        foreign_case(out, std::collections::VecDeque::from(vec![a as u8, b as u8]));
+        foreign_case(out, std::collections::LinkedList::from([a as i64, -(b as i32 as i64)]));
+        foreign_case(out, std::collections::BinaryHeap::from(vec![a as u16, b as u16]).into_sorted_vec());
+        foreign_case(out, [a as u8, b as u8, (a >> 8) as u8]);
+        foreign_case(out, std::path::PathBuf::from(format!("/tmp/p{}/f{}", a % 10, b % 10)));
+        foreign_case(out, Ok::<u8, String>(a as u8));
+        foreign_case(out, Err::<u8, String>(format!("e{}", b % 5)));
+        foreign_case(out, std::marker::PhantomData::<u8>);
+        foreign_case(out, std::cell::Cell::new(a as i32));
+        foreign_case(out, std::cell::RefCell::new(vec![b as u8]));
+    }
 }
